@@ -91,9 +91,9 @@ CORPUS = {
     "sp-skip": (mk(res=12, sync=SYNC, events=EV, tracks={"ExpertSingle": ["0 = S 2 3", "8 = S 2 3", "16 = S 2 3", "0 = N 0 0", "1 = N 1 0", "5 = N 2 0", "16 = N 0 0", "17 = N 1 0"]}), None),
     "sp-all": (mk(res=12, sync=SYNC, events=EV, tracks={"ExpertSingle": ["0 = S 2 3", "8 = S 2 3", "16 = S 2 3", "0 = N 0 0", "1 = N 1 0", "8 = N 2 0", "9 = N 3 0", "16 = N 0 0", "17 = N 1 0"]}), None),
     "sp-late": (mk(res=12, sync=SYNC, events=EV, tracks=[("ExpertSingle", ["0 = S 2 3", "8 = S 2 3", "16 = S 2 3", "5 = N 0 0", "17 = N 1 0"]), ("HardSingle", ["0 = S 2 0", "0 = S 2 2", "1 = N 1 0"])]), None),
-    # tempo maps of 12 events at different ticks (fast paths for long maps, tables built per map)
-    "long-a": (mk(res=12, sync=["0 = TS 4"] + ["%d = B %d" % (5 * i, 120000 + 1000 * i) for i in range(12)], events=EV, tracks={"ExpertSingle": ["%d = N %d %d" % (4 * i + 1, i % 5, 3) for i in range(16)]}), None),
-    "long-b": (mk(res=12, sync=["0 = TS 4"] + ["%d = B %d" % (3 * i * i, 90000 + 500 * i) for i in range(12)], events=EV, tracks={"ExpertSingle": ["%d = N %d %d" % (25 * i + 2, (i + 1) % 5, 7) for i in range(16)]}), None),
+    # tempo maps of 11 events at different ticks (fast paths for long maps, tables built per map)
+    "long-a": (mk(res=12, sync=["0 = TS 4"] + ["%d = B %d" % (5 * i, 120000 + 1000 * i) for i in range(11)], events=EV[:1], tracks={"ExpertSingle": ["%d = N %d %d" % (13 * i + 1, i % 5, 3) for i in range(4)]}), None),
+    "long-b": (mk(res=12, sync=["0 = TS 4"] + ["%d = B %d" % (3 * i * i, 90000 + 500 * i) for i in range(11)], events=EV[:1], tracks={"ExpertSingle": ["%d = N %d %d" % (70 * i + 2, (i + 1) % 5, 7) for i in range(4)]}), None),
 }
 NAMES = list(CORPUS)
 BASELINE = {}
